@@ -260,7 +260,7 @@ class Ctx:
                 if crashed:
                     # harness died (sanitizer report / signal): the history being executed is the culprit
                     bad = min(len(per) - 1, len(idxs) - 1)
-                    reports.append((idxs[bad], "harness exit %d: %s" % (rc, (se or so)[-1500:]), None))
+                    reports.append((idxs[bad], "harness exit %d: %s" % (rc, (se or so)[-1500:]), list(idxs[:bad + 1])))
                     good = idxs[:bad]
                     rest = idxs[bad + 1:]
                     # validate what completed before the crash
@@ -291,7 +291,8 @@ class Ctx:
                 if bad is None:
                     bad = len(per) - 1
                 reports.append((idxs[bad], "trace rejected at event %d of history (%s)" % (
-                    v.matched + 1 - cnt - (1 if bad else 0), v.violated or "no enabled spec action matches the recorded call/result"), None))
+                    v.matched + 1 - cnt - (1 if bad else 0), v.violated or "no enabled spec action matches the recorded call/result"),
+                    list(idxs[:bad + 1])))
                 accepted_total[0] += bad
                 idxs = idxs[bad + 1:]
             if idxs and rounds >= 6:
@@ -303,25 +304,53 @@ class Ctx:
         self.log("%s: executed+validated %d histories in %d shards, %.1fs, %d rejected" % (
             label, len(histories), len(shards), time.time() - t_ev, len(reports)))
 
-        # confirm each report by re-running that history alone
-        nrep = 0
-        for hi, why, _ in reports:
-            h = histories[hi]
-            sched = os.path.join(self.work, "%s-confirm-%d.sched" % (label, hi))
-            tr = os.path.join(self.work, "%s-confirm-%d.ndjson" % (label, hi))
+        # confirm each report by re-running that history alone; if it only fails after the histories that preceded it in
+        # its process (library state that survives the harness's Reset), confirm it in that context instead: the shortest
+        # suffix of the preceding histories (1, 3, 7, ... of them) that reproduces the rejection in the last history
+        def run_ctx(hs_idx, tag):
+            sched = os.path.join(self.work, "%s-confirm-%s.sched" % (label, tag))
+            tr = os.path.join(self.work, "%s-confirm-%s.ndjson" % (label, tag))
             with open(sched, "w") as f:
-                for ln in to_lines(h):
-                    f.write(ln + "\n")
-            rc, so, se = self.run([exe, sched, tr] + list(harness_args), timeout=120, env=env)
+                for k, hi2 in enumerate(hs_idx):
+                    if k:
+                        f.write(reset_line + "\n")
+                    for ln in to_lines(histories[hi2]):
+                        f.write(ln + "\n")
+            rc, so, se = self.run([exe, sched, tr] + list(harness_args), timeout=timeout if len(hs_idx) > 1 else 120, env=env)
+            v = self.validate(module, cfg, tr) if rc == 0 else None
+            return sched, tr, rc, se, v
+
+        nrep = 0
+        nctx = 0
+        for hi, why, context in reports:
+            h = histories[hi]
+            sched, tr, rc, se, v = run_ctx([hi], str(hi))
             confirmed = True
+            lines_out = to_lines(h)
             evs = [json.loads(x) for x in open(tr)] if os.path.exists(tr) else []
             fail_at = None
             if rc == 0:
-                v = self.validate(module, cfg, tr)
                 confirmed = not v.accepted
                 fail_at = v.matched
                 if v.violated:
                     why += " [" + v.violated + "]"
+            if not confirmed and context and len(context) > 1 and nctx < 4:
+                nctx += 1
+                k = 1
+                while not confirmed:
+                    part = context[-(k + 1):]
+                    sched, tr, rc, se, v = run_ctx(part, "%d-ctx%d" % (hi, k))
+                    if rc != 0 or not v.accepted:
+                        confirmed = True
+                        why += " -- only after the %d histories that preceded it in the same process (the replay file holds them all)" % (len(part) - 1)
+                        lines_out = []
+                        for j, hi2 in enumerate(part):
+                            lines_out += ([reset_line] if j else []) + list(to_lines(histories[hi2]))
+                        evs, fail_at = [], None
+                        break
+                    if len(part) >= len(context):
+                        break
+                    k = 2 * k + 1
             if not confirmed:
                 self.notes.append("unconfirmed rejection dropped (history %d): %s" % (hi, why))
                 accepted_total[0] += 1
@@ -332,7 +361,7 @@ class Ctx:
                 continue
             nrep += 1
             if nrep <= max_report:
-                d = self.save("%s-%d.sched" % (label, hi), "\n".join(to_lines(h)) + "\n")
+                d = self.save("%s-%d.sched" % (label, hi), "\n".join(lines_out) + "\n")
                 if os.path.exists(tr):
                     self.save_file(tr, "%s-%d.ndjson" % (label, hi))
                 self.save("%s-%d.why.txt" % (label, hi), why + "\n" + (se or "")[-3000:])
